@@ -30,7 +30,10 @@ type C08Case struct {
 	End     string     `json:"end"` // eof | err | eofdata (last bytes returned together with io.EOF) | park (channel layer only)
 	Channel bool       `json:"channel"`
 	Consume string     `json:"consume,omitempty"` // how the consumer reads a message: "" readall | copy | tobytes
-	Zero    int        `json:"zero,omitempty"`    // every Zero-th transport read returns (0, nil) (not for the varlen decoder, which hands an empty read on)
+	// Packet: the inbound messages are []byte packets (one per cut: what a packet transport or a chunk-delivering handler
+	// such as the variable-length codec hands on), each inside a larger reused buffer that still holds older bytes
+	Packet bool `json:"packet,omitempty"`
+	Zero   int  `json:"zero,omitempty"` // every Zero-th transport read returns (0, nil) (not for the varlen decoder, which hands an empty read on)
 }
 
 func genC08(t *rapid.T) C08Case {
@@ -214,6 +217,12 @@ func genC08(t *rapid.T) C08Case {
 	c.Consume = rapid.SampledFrom([]string{"", "", "copy", "tobytes"}).Draw(t, "consume")
 	if !c.Channel {
 		c.Zero = rapid.SampledFrom([]int{0, 0, 0, 2, 3, 7}).Draw(t, "zero")
+		if rapid.IntRange(0, 5).Draw(t, "packet") == 0 {
+			c.Packet, c.Zero = true, 0
+			if len(c.Cuts) == 0 {
+				c.Cuts = []int{imax(1, len(c.Stream)/2)}
+			}
+		}
 	}
 	if c.Channel {
 		c.End = rapid.SampledFrom([]string{"eof", "err", "park"}).Draw(t, "end")
@@ -436,6 +445,9 @@ func runC08(c C08Case) (out core.Outcome) {
 		return core.Outcome{Inconclusive: "bad case: park needs the channel layer"}
 	}
 
+	if c.Packet {
+		return runC08Packets(c, dec, cls, out)
+	}
 	fr := &wire.Fragmenter{Data: c.Stream, Cuts: c.Cuts, End: c.End, Zero: c.Zero}
 	if c.Zero > 0 {
 		cls.Add("empty-reads")
@@ -499,6 +511,62 @@ func runC08(c C08Case) (out core.Outcome) {
 		return
 	}
 	return
+}
+
+// runC08Packets: every inbound message is a []byte packet; a frame is complete only if the packet holds all of it.
+func runC08Packets(c C08Case, dec netty.InboundHandler, cls *core.ClassSet, out core.Outcome) core.Outcome {
+	cd := c.Codec
+	cls.Add("inbound:packets")
+	buf := bytes.Repeat([]byte{0xEE}, len(c.Stream)+4096) // reused: older packets' bytes stay behind the current one
+	pos := 0
+	for k := 0; pos < len(c.Stream) && k < 64; k++ {
+		n := imin(c.Cuts[imin(k, len(c.Cuts)-1)], len(c.Stream)-pos)
+		copy(buf, c.Stream[pos:pos+n])
+		packet := buf[:n] // capacity and memory behind it belong to the reused buffer
+		pos += n
+		ref := cd.RefDecode(c.Stream[pos-n:pos], false)
+		var deliveries []c08Consumed
+		ctx := &mock.Ctx{OnRead: func(m netty.Message) { deliveries = append(deliveries, consumeMessageAs(m, c.Consume)) }}
+		pv := mock.Catch(func() { dec.HandleRead(ctx, packet) })
+		if re, ok := pv.(runtime.Error); ok {
+			out.Violation = core.Viol("C08/runtime-fault:"+cd.Kind, "decoder failed with a runtime error on a %d-byte packet: %v", n, re)
+			return out
+		}
+		if len(deliveries) > 1 {
+			out.Violation = core.Viol("C08/multiple-deliveries:"+cd.Kind, "%d messages delivered for one packet", len(deliveries))
+			return out
+		}
+		if len(deliveries) == 1 {
+			d := deliveries[0]
+			if d.err != nil && !errors.Is(d.err, io.EOF) {
+				cls.Add("consumer-read-error")
+				continue
+			}
+			if v := judgeDelivery(cd, ref, true, d); v != nil {
+				v.Msg = fmt.Sprintf("packet %d (%d bytes): %s", k, n, v.Msg)
+				out.Violation = v
+				return out
+			}
+			cls.Add("delivered-ok")
+			if ref.Consumed < n {
+				cls.Add("packet-with-trailing-bytes")
+			}
+			continue
+		}
+		if pv != nil {
+			cls.Add("raised:%s", ref.Status)
+			if ref.Status == wire.Truncated {
+				cls.Add("packet-truncated-frame-raised")
+				out.NonTrivial = true
+			}
+			continue
+		}
+		if ref.Status == wire.OK && len(ref.Msg) > 0 {
+			// neither delivered nor raised although the packet holds a complete frame: silent loss is not C08's subject
+			cls.Add("silent-consume")
+		}
+	}
+	return out
 }
 
 func runC08Channel(c C08Case, cd wire.Codec, dec netty.InboundHandler, cls *core.ClassSet, out core.Outcome) core.Outcome {
